@@ -372,7 +372,7 @@ var literalCallers func(fn *ssa.Function) []ssa.CallInstruction
 
 func ruleR09a(c *Check) {
 	literalCallers = func(fn *ssa.Function) []ssa.CallInstruction { return c.G.CallersOf(fn) }
-	c.Rule("R09a", "in the hash-composing functions: a strings.Join whose result is hashed takes a slice sorted before it on every path; a hasher write inside a loop ranges over a slice sorted before the loop (never directly over a map); a slice filled while ranging over a map is sorted before any other use; protobuf bytes that are hashed come from MarshalOptions{Deterministic:true}; slices.Compact is only applied to sorted data", 9)
+	c.Rule("R09a", "in the hash-composing functions: a strings.Join whose result is hashed takes a slice sorted before it on every path; a hasher write inside a loop ranges over a slice sorted before the loop (never directly over a map); a slice filled while ranging over a map is sorted before any other use; protobuf bytes that are hashed come from MarshalOptions{Deterministic:true}; slices.Compact is only applied to sorted data", 7)
 	comp := hashComposing(c)
 	sinks := hasherSinks(c)
 	sinkBack := func(fn *ssa.Function) *engine.Reach {
